@@ -1,4 +1,162 @@
-/-! Cut: executable models (no Mathlib imports). -/
+/-!
+Cut: cutting stock / set covering by columns (solvor/cg.py, solvor/bp.py) — spec side.
+
+Everything here is executable and Mathlib-free.  Three groups:
+
+* the *spec* (`Fits`, `produced`, `rolls`, `ValidPlan`, `IsMinRolls`) and the Boolean plan
+  checker `checkPlan` the driver evaluates on the implementation's output;
+* the *exact optimum* `minRolls`: breadth-first search over residual-demand vectors, one level
+  per roll, with fuel (`cs_optimum_correct` in Theorems.lean);
+* the *dual bound*: `knapMax` is a bounded-knapsack DP over (piece type, capacity) that
+  maximises `y·p` over all patterns that fit; `dualFeasible` decides `y ≥ 0 ∧ ∀ p, y·p ≤ 1`
+  and `dualBound` is `⌈y·d⌉` (`dual_bound` in Theorems.lean: it never exceeds the optimum).
+-/
 namespace Solvor.Cut
+
+/-- A cutting pattern / column: how many pieces of each type one roll yields. -/
+abbrev Pat := List Nat
+/-- A plan: patterns with the number of rolls cut that way (the `{pattern: count}` dict). -/
+abbrev Plan := List (Pat × Nat)
+
+/-! ### vectors -/
+
+/-- `Σ sᵢ·pᵢ` over the common prefix. -/
+def dotN : List Nat → List Nat → Nat
+  | s :: ss, c :: cs => s * c + dotN ss cs
+  | _, _ => 0
+
+/-- `Σ yᵢ·pᵢ` over the common prefix. -/
+def dotQ : List Rat → List Nat → Rat
+  | y :: ys, c :: cs => y * (c : Rat) + dotQ ys cs
+  | _, _ => 0
+
+/-- Truncated componentwise subtraction; keeps the length of the first argument. -/
+def subv : List Nat → List Nat → List Nat
+  | d :: ds, p :: ps => (d - p) :: subv ds ps
+  | ds, [] => ds
+  | [], _ => []
+
+def isZero (d : List Nat) : Bool := d.all (· == 0)
+
+/-! ### spec -/
+
+/-- Cutting-stock mode: a pattern is admissible when it has one count per piece type and the
+pieces fit in the roll width. -/
+def Fits (W : Nat) (sizes : List Nat) (p : Pat) : Prop :=
+  p.length = sizes.length ∧ dotN sizes p ≤ W
+
+def fitsB (W : Nat) (sizes : List Nat) (p : Pat) : Bool :=
+  p.length == sizes.length && decide (dotN sizes p ≤ W)
+
+/-- Custom mode: the admissible columns are an explicit list. -/
+def InCols (cols : List Pat) (p : Pat) : Prop := p ∈ cols
+
+def inColsB (cols : List Pat) (p : Pat) : Bool := cols.contains p
+
+/-- Number of pieces of type `i` the plan produces: `Σ_{(p,c) ∈ plan} p[i]·c`. -/
+def produced (plan : Plan) (i : Nat) : Nat := (plan.map fun pc => pc.1.getD i 0 * pc.2).sum
+
+/-- Number of rolls the plan uses. -/
+def rolls (plan : Plan) : Nat := (plan.map fun pc => pc.2).sum
+
+/-- A plan is valid for demands `d` when every pattern is admissible and every demand is met. -/
+structure ValidPlan (Feas : Pat → Prop) (d : List Nat) (plan : Plan) : Prop where
+  feas : ∀ pc ∈ plan, Feas pc.1
+  covers : ∀ i, i < d.length → d.getD i 0 ≤ produced plan i
+
+/-- `k` is the true minimum number of rolls: some valid plan uses `k`, none uses fewer. -/
+def IsMinRolls (Feas : Pat → Prop) (d : List Nat) (k : Nat) : Prop :=
+  (∃ plan, ValidPlan Feas d plan ∧ rolls plan = k) ∧ ∀ plan, ValidPlan Feas d plan → k ≤ rolls plan
+
+/-- The plan checker (T-spec): admissible patterns, demands met, objective = rolls. -/
+def checkPlan (feasB : Pat → Bool) (d : List Nat) (plan : Plan) (obj : Nat) : Bool :=
+  plan.all (fun pc => feasB pc.1) &&
+  (List.range d.length).all (fun i => decide (d.getD i 0 ≤ produced plan i)) &&
+  obj == rolls plan
+
+/-! ### exact optimum: level-by-level search over residual demands -/
+
+/-- Lexicographic order on vectors, only used to sort a level before removing duplicates
+(correctness does not depend on it). -/
+def lexLe : List Nat → List Nat → Bool
+  | a :: as, b :: bs => if a < b then true else if b < a then false else lexLe as bs
+  | [], _ => true
+  | _ :: _, [] => false
+
+/-- Remove adjacent duplicates. -/
+def dedupAdj : List (List Nat) → List (List Nat)
+  | a :: b :: t => if a == b then dedupAdj (b :: t) else a :: dedupAdj (b :: t)
+  | l => l
+
+/-- Residual demands reachable with one more roll. -/
+def stepLevel (pats : List Pat) (F : List (List Nat)) : List (List Nat) :=
+  dedupAdj ((F.flatMap fun e => pats.map fun p => subv e p).mergeSort lexLe)
+
+/-- `search pats fuel k F`: `F` is the set of residual demands reachable with exactly `k` rolls;
+answer the first level that contains the zero vector, give up after `fuel` more levels. -/
+def search (pats : List Pat) : Nat → Nat → List (List Nat) → Option Nat
+  | 0, k, F => if F.any isZero then some k else none
+  | fuel + 1, k, F => if F.any isZero then some k else search pats fuel (k + 1) (stepLevel pats F)
+
+/-- Minimum number of columns of `pats` (with repetition) whose sum covers `d`; `none` when
+`fuel` rolls are not enough. -/
+def minRolls (pats : List Pat) (d : List Nat) (fuel : Nat) : Option Nat := search pats fuel 0 [d]
+
+/-- Patterns for (W, sizes) with `pᵢ ≤ capsᵢ`; the count of the last piece type is always the
+largest that fits (a pattern with fewer copies of it is dominated). -/
+def enumPats : Nat → List Nat → List Nat → List Pat
+  | _, [], _ => [[]]
+  | W, [s], caps => [[min (caps.headD 0) (W / s)]]
+  | W, s :: s' :: ss, caps =>
+    (List.range (caps.headD 0 + 1)).flatMap fun c =>
+      if s * c ≤ W then (enumPats (W - s * c) (s' :: ss) caps.tail).map (c :: ·) else []
+
+/-- Exact cutting-stock optimum.  Fuel `Σ d` always suffices (one roll per demanded piece). -/
+def csOpt (W : Nat) (sizes d : List Nat) : Option Nat :=
+  minRolls (enumPats W sizes d) d d.sum
+
+/-! ### dual bound: bounded knapsack DP -/
+
+def maxQ (a b : Rat) : Rat := if a ≤ b then b else a
+
+/-- Best value of `c·v + old[w − c·s]` over `0 ≤ c ≤ cmax`. -/
+def bestCopies (s : Nat) (v : Rat) (old : List Rat) (w : Nat) : Nat → Rat
+  | 0 => old.getD w 0
+  | c + 1 => maxQ (bestCopies s v old w c) (((c + 1 : Nat) : Rat) * v + old.getD (w - (c + 1) * s) 0)
+
+/-- DP row: entry `w` (for `0 ≤ w ≤ W`) is the largest `y·p` over patterns `p` of the listed
+piece types with `sizes·p ≤ w`.  One row per piece type, built from the row of the remaining
+types (`max_copies = w / s` copies at most, as in `knapsack_pricing`). -/
+def knapRow (W : Nat) : List Nat → List Rat → List Rat
+  | s :: ss, v :: vs =>
+    let old := knapRow W ss vs
+    (List.range (W + 1)).map fun w => bestCopies s v old w (w / s)
+  | _, _ => List.replicate (W + 1) 0
+
+def knapMax (W : Nat) (sizes : List Nat) (y : List Rat) : Rat := (knapRow W sizes y).getD W 0
+
+/-- Decides `y ≥ 0 ∧ ∀ fitting p, y·p ≤ 1` (dual feasibility over ALL patterns). -/
+def dualFeasible (W : Nat) (sizes : List Nat) (y : List Rat) : Bool :=
+  y.length == sizes.length && y.all (fun q => decide (0 ≤ q)) && decide (knapMax W sizes y ≤ 1)
+
+/-- Same for an explicit column list. -/
+def dualFeasibleCols (cols : List Pat) (y : List Rat) : Bool :=
+  y.all (fun q => decide (0 ≤ q)) && cols.all (fun p => decide (dotQ y p ≤ 1))
+
+/-- The lower bound `⌈y·d⌉` of column generation. -/
+def dualBound (y : List Rat) (d : List Nat) : Int := (dotQ y d).ceil
+
+/-- Scale an arbitrary non-negative `y` into the dual-feasible region: divide by
+`max 1 (max_p y·p)`. -/
+def scaleDual (m : Rat) (y : List Rat) : List Rat :=
+  if 1 < m then y.map (· / m) else y
+
+/-! ### the status rule of the repaired `solve_bp` / `solve_cg`
+
+`OPTIMAL` is claimed exactly when the incumbent does not exceed the rounded-up LP bound of a
+converged column generation (cg.py tail; bp.py with the proposed status patch, `gap_tol` at
+its default: integers `best`, `lb` with `(best − lb)/best < 1e-6` iff `best ≤ lb`). -/
+def claimsOptimal (converged : Bool) (best : Nat) (lb : Int) : Bool :=
+  converged && decide ((best : Int) ≤ lb)
 
 end Solvor.Cut
